@@ -1,13 +1,17 @@
 """
 C04 -- minor-allele refinement preserves the major call and is optimal.
 
-Decided: the refinement model contains every necessary constraint family: (R1) selectors tied to
-the major call, (R2) keep/add products wired to their own selector pair, (R3) coverage equations
-for variants and reference sites, (R4) core variants kept, (R5) no variant where the allele has no
-copies / no reads, (R6) one variant per site, (R7) supported variants carried, (R8) objective, (R9)
-read-out.  Extracted templates are evaluated on a sample instance and compared with the documented
-expression.  CORD / CONE / CSINGLE / CVK / CVN / CMAXCOV / CZERO are not required.
-Not decided: optimality of CBC's answer, the phase term's numerical effect.
+Decided by whole-function folding against the recording MILP library (sa.lpmodel): minor.solve_minor_model and the solver
+wrapper class of /repo are executed by the analysis' interpreter on sample instances small enough to enumerate.
+(R11) every assignment the built model admits -- observed through the routine's *own* read-out, by giving the wrapper instance
+      a `solutions` that walks all feasible points of the recorded model -- satisfies the statement's clauses, equals the
+      set an independent reading of the documented rules admits (optional strengthening rules are don't-care), and scores
+      fit error + penalties (+ read-group disagreement) to 2e-3;
+(R12) the report through the real `solutions()` loop for max_solutions 1 and 3 is optimal, clause-conform and scored with
+      the objective;
+(R13) estimate_minor pools candidates and considered variants over all major solutions (folded whole).
+The template rules R1-R10 of the first build (per-constraint normal forms keyed by local names) were retired for R11/R12.
+Not decided: optimality of CBC's answer on real models; instances beyond the enumerable size.
 """
 
 import ast
@@ -21,714 +25,317 @@ from sa.loader import AnalysisError, call_name, calls_in, kwarg, walk_local
 
 PROPERTY = "C04"
 EXPLANATION = (
-    "Constraint-template conformance for minor::solve_minor_model on a sample instance (three candidate minor alleles of "
-    "two majors, one allele with two copies, a variant the allele has no copies for, a site with a kept and an addable "
-    "variant, an insertion, an unsupported variant): every required family is found by its variables, its normal form "
-    "is evaluated for all bindings of its loops and compared with the documented relation (truth tables over the "
-    "involved binaries for implication-type rules, numeric residuals for equations); the scatter table of the coverage "
-    "equations is evaluated per key; products are checked structurally (result and selector are the two members of the "
-    "same pair); objective and read-out loop are lifted and folded."
+    "Model extraction by whole-function folding: solve_minor_model + lpinterface.CBC/Gurobi of /repo run in the analysis' interpreter against a "
+    "recording library stand-in (exhaustive depth-first enumeration of the binaries with interval pruning; continuous part in closed form or by the "
+    "analysis' own simplex). 7 quick / 17 thorough instances: two majors, two and three copies of one major, an uncalled candidate, unsupported "
+    "variants, stray reads where the structure has no copy, a fused allele without copies at a site, an insertion sharing a site, a novel core "
+    "variant, read groups (phase), non-default penalties, seeded random read tables. Every admitted assignment (50-300 per instance) is compared "
+    "with an independent enumeration and checked against the statement's clauses; reports for max_solutions 1 and 3."
 )
-ASSUMPTIONS = ["the phase model is switched off in the sample instance; only the presence and sign of its objective term is checked"]
+ASSUMPTIONS = ["carriers <= reads, the reference-side slack rule and the per-site rules beyond one-variant-per-allele-and-position are optional strengthenings (don't-care)",
+               "the read-out convention that copies an exactly homozygous variant to every allele is kept out of the instances"]
 
 
-class Mut(collections.namedtuple("Mutation", ["pos", "op"])):
-    def __str__(self):
-        return f"{self.pos + 1}.{self.op}"
+def minor_instances():
+    """Sample instances of the minor stage (kept small: every assignment is enumerated)."""
+    import random
+
+    from checks._minormodel import Instance, Mut as MM
+    from sa.report import seed as _seed, thorough
+
+    rnd = random.Random(_seed() + 50)
+    G1, T1, T2, T3, IN, NV = MM(100, "A>G"), MM(200, "C>T"), MM(300, "G>A"), MM(400, "T>C"), MM(200, "insA"), MM(500, "C>G")
+    cat = {"1": ([], {"1.001": [], "1.002": [T1]}), "3": ([G1], {"3.001": [T2], "3.002": [T2, T3]})}
+    ref = lambda *ps: {MM(p, "_"): n for p, n in ps}  # noqa
+    merged = lambda a, b: {**a, **b}  # noqa
+    small = {"1": ([], {"1.001": []}), "3": ([G1], {"3.001": [T2]})}
+    out = [
+        ("two majors, one copy each", Instance(cat, {"1": 1, "3": 1}, merged({G1: 10, T1: 9, T2: 11, T3: 1}, ref((100, 10), (200, 11), (300, 9), (400, 19))))),
+        ("two copies of one major beside an uncalled candidate", Instance(cat, {"3": 2}, merged({G1: 19, T1: 0, T2: 12, T3: 8}, ref((100, 1), (200, 21), (300, 9), (400, 13))))),
+        ("two copies of one major, unsupported variants, stray reads where the structure has no copy",
+         Instance(cat, {"1": 2}, merged({T1: 9, T2: 5, G1: 0, T3: 0}, ref((100, 20), (200, 11), (300, 2), (400, 20))), copies_at={300: 0})),
+        ("a fused allele without copies at one site", Instance(cat, {"1": 1, "3": 1}, merged({G1: 10, T1: 9, T2: 11, T3: 5}, ref((100, 10), (200, 11), (300, 9), (400, 6))),
+                                                               no_cov={("3", 400)}, copies_at={400: 1})),
+        ("an insertion and a substitution sharing a site", Instance({"1": ([], {"1.001": [], "1.002": [T1]})}, {"1": 2}, merged({T1: 8, IN: 7}, ref((200, 13))), considered=[IN])),
+        ("a novel core variant on both copies (its surcharge is charged once)",
+         Instance({"1": ([], {"1.001": []})}, {"1": 2}, merged({NV: 19}, ref((500, 1))), considered=[NV], functional=[NV])),
+        ("read groups that tie variants together",
+         Instance(small, {"1": 1, "3": 1}, merged({G1: 10, T2: 11, T1: 6}, ref((100, 10), (200, 14), (300, 9))), considered=[T1],
+                  phases={"r1": {100: "A>G", 300: "G>A"}, "r2": {100: "A>G", 300: "G>A"}, "r3": {100: "_", 200: "C>T"}, "r4": {300: "G>A"}, "r5": {100: "_", 300: "_"}})),
+        ("read groups showing the reference where the only called copy carries variants (an uncalled candidate would explain them)",
+         Instance(small, {"3": 1}, merged({G1: 10, T2: 11}, ref((100, 3), (300, 2))),
+                  phases={"r1": {100: "_", 300: "_"}, "r2": {100: "_", 300: "_"}, "r3": {100: "A>G", 300: "G>A"}})),
+    ]
+    if thorough():
+        out += [
+            ("an insertion sharing a site and a novel functional variant",
+             Instance(cat, {"1": 1, "3": 1}, merged({G1: 10, T1: 9, T2: 11, T3: 1, IN: 4, NV: 6}, ref((100, 10), (200, 11), (300, 9), (400, 19), (500, 12))),
+                      considered=[IN, NV], functional=[NV])),
+            ("read groups that tie variants together",
+             Instance(cat, {"1": 1, "3": 1}, merged({G1: 10, T1: 9, T2: 11, T3: 1}, ref((100, 10), (200, 11), (300, 9), (400, 19))),
+                      phases={"r1": {100: "A>G", 300: "G>A"}, "r2": {100: "A>G", 300: "G>A"}, "r3": {100: "_", 200: "C>T"}, "r4": {300: "G>A"}})),
+            ("three copies, non-default penalties",
+             Instance({"1": ([], {"1.001": [], "1.002": [T1]})}, {"1": 3}, merged({T1: 13, T2: 4}, ref((200, 17), (300, 27))), considered=[T2], miss=0.7, add=2.0)),
+        ]
+        for i in range(4):
+            reads = {G1: rnd.randint(3, 14), T1: rnd.randint(0, 14), T2: rnd.randint(1, 14), T3: rnd.randint(0, 9)}
+            reads.update(ref((100, rnd.randint(3, 19)), (200, rnd.randint(3, 19)), (300, rnd.randint(3, 19)), (400, rnd.randint(3, 23))))
+            called = rnd.choice([{"1": 1, "3": 1}, {"3": 2}, {"1": 2}, {"1": 2, "3": 1}])
+            tot = sum(called.values())
+            for m_ in (G1, T1, T2, T3):   # keep away from the exactly-homozygous ratio (a read-out convention outside the statement)
+                sc = max(1, reads[m_] + reads[MM(m_.pos, "_")]) / tot
+                if abs(reads[m_] / sc - tot) < 1e-3:
+                    reads[MM(m_.pos, "_")] += 1
+            out.append((f"random {i}", Instance(cat, called, reads, miss=rnd.choice([1.5, 0.7]), add=rnd.choice([1.0, 0.4]))))
+    return out
 
 
-class SA:
-    """Hashable stand-in for SolvedAllele."""
-
-    def __init__(self, gene, major, minor="", added=(), missing=()):
-        self.gene, self.major, self.minor = gene, major, minor
-        self.added, self.missing = list(added), list(missing)
-
-    def _k(self):
-        return (self.major, self.minor, tuple(self.added), tuple(self.missing))
-
-    def __hash__(self):
-        return hash(self._k())
-
-    def __eq__(self, o):
-        return isinstance(o, SA) and self._k() == o._k()
-
-    def __lt__(self, o):
-        return self._k() < o._k()
-
-    def __repr__(self):
-        return f"SA({self.major},{self.minor})"
-
-
-F1, S1, S2, NC, INS, X0 = Mut(250, "C>T"), Mut(150, "T>A"), Mut(350, "G>A"), Mut(450, "A>C"), Mut(250, "insG"), Mut(550, "C>G")
-ALT250 = Mut(250, "C>A")
-ALT350 = Mut(350, "G>C")  # a site where an allele has exactly one own and one addable variant
-
-
-def sample():
-    """gene with majors 1 (minors 1.001, 1.002) and 3 (minor 3.001); 3 has no copies at position 450."""
-    minor = lambda muts: Obj(neutral_muts=set(muts))  # noqa
-    alleles = {
-        "1": Obj(func_muts=set(), minors={"1.001": minor([]), "1.002": minor([S1])}, cn_config="1"),
-        "3": Obj(func_muts={F1}, minors={"3.001": minor([S2])}, cn_config="1"),
-    }
-    functional = {F1, ALT250}
-    gene = Obj(name="G", alleles=alleles,
-               is_functional=lambda m, infer=True: Mut(*m) in functional,
-               has_coverage=lambda a, pos: not (a == "3" and pos == 450))
-    cn = Obj(position_cn=lambda pos: 0 if pos == 550 else 3, max_cn=lambda: 3, solution={"1": 3})
-    major_sol = Obj(solution=collections.Counter({SA(gene, "1"): 1, SA(gene, "3"): 2}), cn_solution=cn, added=[],
-                    _solution_nice=lambda: "")
-    cands = [SA(gene, "1", "1.001"), SA(gene, "1", "1.002"), SA(gene, "3", "3.001")]
-    mutations = {F1, S1, S2, NC, INS, X0, ALT250, ALT350}
-    support = {F1: 10, S1: 12, S2: 0, NC: 7, INS: 4, X0: 3, ALT250: 5, ALT350: 6}
-    return gene, major_sol, cands, mutations, support
+def clause_violations(inst, key):
+    """The statement's clauses on one reported / admitted assignment (key = sorted (major, minor, added, lost) per copy)."""
+    out = []
+    majors = collections.Counter(c_[0] for c_ in key)
+    if dict(majors) != dict(inst.called):
+        out.append(f"names alleles of majors {dict(majors)} for the major call {dict(inst.called)}")
+    carried_by = collections.Counter()
+    for major, minor, added, lost in key:
+        if major not in inst.catalogue or minor not in inst.catalogue[major][1]:
+            out.append(f"{minor} is not a catalogued minor allele of major {major}")
+            continue
+        core, minors = inst.catalogue[major]
+        definition = set(core) | set(minors[minor])
+        if set(lost) & {m for m in definition if m in inst.functional}:
+            out.append(f"{minor} drops a core variant of its allele")
+        for m in added:
+            if (major, m.pos) in inst.no_cov:
+                out.append(f"{m} is added to {minor}, which has no gene copy at that position")
+        carried = (definition - set(lost)) | set(added)
+        for m in carried:
+            carried_by[m] += 1
+            if inst.reads.get(m, 0) <= 0:
+                out.append(f"{minor} is reported to carry {m}, which no filtered read supports")
+        per_pos = collections.Counter(m.pos for m in carried)
+        if any(n_ > 1 for n_ in per_pos.values()):
+            out.append(f"{minor} carries two variants at one position")
+    for m in inst.mutations:
+        if inst.reads.get(m, 0) > 0 and inst.position_cn(m.pos) > 0 and carried_by[m] == 0:
+            out.append(f"{m} has supporting reads but no allele carries it")
+    return out
 
 
-def build_tables(f, m):
-    """Fold the allele-copy table and the two selector tables on the sample (addVar returns the variable's name)."""
-    gene, major_sol, cands, mutations, support = sample()
-    names = []
+def r11(repo, res):
+    """solve_minor_model folded whole against the recording library. (R11) every assignment the built model admits (translated by
+    the routine's own read-out) vs the independent reading of the documented rules: same assignments, same objective; every
+    admitted assignment satisfies the statement's clauses. (R12) the report for max_solutions 1 and 3: optimal, distinct,
+    clause-conform, scored with the objective."""
+    from checks._minormodel import fold_solve_minor, reference
+    from sa.lpmodel import wrapper_model
 
-    def addVar(**kw):
-        names.append(kw.get("name"))
-        return kw.get("name")
-
-    env = {"gene": gene, "major_sol": major_sol, "alleles_list": cands, "mutations": mutations,
-           "model": Obj(addVar=addVar, addConstr=lambda *a, **k: None, INF=1e9)}
-    K = fams(m, "K_")
-    N = fams(m, "N_")
-    VA = fams(m, "A_")
-    loc = fold_defs(m.func, {"alleles", VA, K, N}, env, funcs={"SolvedAllele": SA})
-    for need in ("alleles", VA, K, N):
-        if need not in loc:
-            raise AnalysisError(f"table `{need}` is not built at the top level of solve_minor_model")
-    return loc["alleles"], loc[VA], loc[K], loc[N]
-
-
-def fams(m, prefix):
-    c = [n for n, c_ in m.fams.containers.items() if any(i["prefix"].startswith(prefix) and i["vtype"] == "B" for i in c_["infos"])]
-    if len(c) != 1:
-        raise AnalysisError(f"binary variable family {prefix}... not found uniquely in solve_minor_model: {c}")
-    return c[0]
-
-
-class Ctx:
-    pass
-
-
-def context(repo):
     f = repo.func("minor::solve_minor_model")
-    m = Model(f, ["constraints"])
-    c = Ctx()
-    c.f, c.m = f, m
-    c.VA, c.K, c.N = fams(m, "A_"), fams(m, "K_"), fams(m, "N_")
-    c.gene, c.major_sol, c.cands, c.mutations, c.support = sample()
-    c.A, c.tVA, c.tK, c.tN = build_tables(f, m)
-    c.defs = single_defs(f)
-    c.hook = reach_hook(f)
-    cov = Obj(profile=Obj(minor_miss=1.5, minor_add=1.0, minor_phase=0.4, phase=False, minor_phase_vars=3000), sam=None,
-              single_copy=lambda m_, s: 10.0)
-    c.env = {"gene": c.gene, "major_sol": c.major_sol, "alleles_list": c.cands, "mutations": c.mutations, "alleles": c.A,
-             c.VA: {k: k for k in c.A}, c.K: {a: {mm: (("K", a, mm), ("MK", a, mm)) for mm in c.tK[a]} for a in c.tK},
-             c.N: {a: {mm: (("N", a, mm), ("MN", a, mm)) for mm in c.tN[a]} for a in c.tN},
-             "constraints": {mm: 0 for mm in c.mutations}, "coverage": cov}
-    c.funcs = {"Mutation": Mut, "SolvedAllele": SA}
-
-    def hook(node, ev):
-        if isinstance(node, ast.Subscript) and isinstance(node.value, ast.Name) and node.value.id == "coverage":
-            return c.support.get(ev.ev(node.slice), 0)
-        return c.hook(node, ev)
-
-    c.evhook = hook
-    return c
-
-
-def assignment(c, seed=0):
-    """An arbitrary fractional valuation of all model variables (templates are linear, so this decides equality)."""
-    vals = {}
-    seed = seed or getattr(c, "seed", 0)
-    i = seed * 3
-    for a in sorted(c.A, key=lambda k: (k[0]._k(), k[1])):
-        i += 1
-        vals[("VA", a)] = round(0.11 + 0.07 * i, 3)
-        for tbl, tag in ((c.tK, "K"), (c.tN, "N")):
-            for mm in sorted(tbl[a]):
-                i += 1
-                vals[(tag, a, mm)] = round(0.05 + 0.03 * i, 3)
-                vals[("M" + tag, a, mm)] = round(0.02 + 0.013 * i, 3)
-    return vals
-
-
-def make_varval(c, vals, err=0.125):
-    def varval(fam, keys, comp):
-        if fam == c.VA:
-            k = keys[0] if len(keys) == 1 else keys
-            return vals[("VA", k)]
-        if fam in (c.K, c.N):
-            tag = "K" if fam == c.K else "N"
-            a, mm = keys[0], keys[1]
-            if comp is None:
-                raise Unfoldable("selector pair used without component")
-            return vals[(("M" if comp == 1 else "") + tag, a, mm)]
-        if any(i["prefix"].startswith("E_") for i in c.m.fams.containers.get(fam, {}).get("infos", [])):
-            return err
-        raise Unfoldable(f"unexpected family {fam}")
-    return varval
-
-
-def r1(c, res):
-    f, m = c.f, c.m
-    want = {(a, i) for a in c.cands for i in range(max(1, c.major_sol.solution[SA(c.gene, a.major)]))}
-    node = [n for n in walk_local(f) if isinstance(n, (ast.Assign, ast.AnnAssign)) and
-            ast.unparse(n.targets[0] if isinstance(n, ast.Assign) else n.target) == "alleles"]
-    res.ob("C04.R1", f, node[0] if node else f, set(c.A) == want,
-           expected="every candidate minor allele has as many copies as its major allele is called",
-           found=f"missing {sorted(want - set(c.A), key=str)} extra {sorted(set(c.A) - want, key=str)}", key="copy-supply")
-    vals = assignment(c)
-    vv = make_varval(c, vals)
-    hit = None
-    for a, b in m.equalities():
-        sums = a.lin.sum_terms()
-        if len(sums) == 1 and not a.lin.var_terms() and any(t.kind == "var" and t.fam == c.VA for _, t in sums[0][1].body.terms):
-            hit = a
-    bad = None
-    if hit is not None:
+    res.analysed(f)
+    wrapper = wrapper_model(repo)
+    bad = {}
+    n = total = 0
+    for label, inst in minor_instances():
+        tag = f"{label}: {inst.describe()}"
         try:
-            seen = 0
-            for loc, v in site_values(hit, c.env, vv, funcs=c.funcs, hook=c.evhook, defs=c.defs):
-                sa = [x for x in loc.values() if isinstance(x, SA)][0]
-                cnt = c.major_sol.solution[sa]
-                want_v = sum(vals[("VA", k)] for k in c.A if (k[0].major, k[0].added, k[0].missing) == (sa.major, sa.added, sa.missing)) - cnt
-                seen += 1
-                if min(abs(v - want_v), abs(v + want_v)) > 1e-9:
-                    bad = f"major {sa.major}: template {v}, documented {want_v}"
-            if seen != len(c.major_sol.solution):
-                bad = bad or f"{seen} instances for {len(c.major_sol.solution)} called majors"
-        except (Unfoldable, Raised, KeyError, IndexError) as e:
-            res.err("C04.R1", f"count-tie template outside folding language: {e}")
+            kind, out = fold_solve_minor(repo, inst, "all", 10 ** 6, wrapper)
+        except Unfoldable as e:
+            res.err("C04.R11", f"solve_minor_model outside the folding language: {e}")
             return
-    res.ob("C04.R1", f, hit.call if hit is not None else f, hit is not None and bad is None,
-           expected="per called major allele: sum of selectors of its candidate minors (matching major, added, missing) == its count (both senses)",
-           found=("agrees on the sample instance" if bad is None else bad) if hit is not None else "no such equality",
-           clause="exactly one catalogued minor allele of that same major allele per called copy", key="count-tie")
-    # candidates of other majors are disabled: total selected <= total copies
-    ok = False
-    for s in m.sites:
-        if s.lin is None or s.sense == "==":
-            continue
-        sums = s.lin.sum_terms()
-        if len(sums) == 1 and not s.lin.var_terms() and not s.binders:
-            body = sums[0][1].body
-            if len(body.terms) == 1 and body.terms[0][1].kind == "var" and body.terms[0][1].fam == c.VA and not sums[0][1].filters:
-                try:
-                    v = LinEval(c.env, vv, funcs=c.funcs, hook=c.evhook).lin(s.lin)
-                    tot = sum(vals[("VA", k)] for k in c.A) - sum(c.major_sol.solution.values())
-                    ok = ok or abs(v - tot) < 1e-9
-                except (Unfoldable, Raised, KeyError):
-                    pass
-    res.ob("C04.R1", f, f, ok, expected="sum of all selectors <= number of called copies (candidates of other major alleles stay unused)",
-           found="present" if ok else "absent", key="others-disabled")
-
-
-def r2(c, res):
-    f, m = c.f, c.m
-    n = 0
-    for call in m.prods:
-        if len(call.args) < 2 or not isinstance(call.args[1], (ast.List, ast.Tuple)):
-            continue
-        r_ = m.lz.lin(call.args[0], call)
-        if len(r_.terms) != 1 or r_.terms[0][1].kind != "var" or r_.terms[0][1].fam not in (c.K, c.N):
+        if kind == "raise":
+            bad.setdefault("runs", f"{tag}: raises {out}")
             continue
         n += 1
-        rt = r_.terms[0][1]
-        fs = [m.lz.lin(x, call) for x in call.args[1].elts]
-        fts = [x.terms[0][1] for x in fs if len(x.terms) == 1 and x.terms[0][1].kind == "var"]
-        sel = [t for t in fts if t.fam == rt.fam]
-        va = [t for t in fts if t.fam == c.VA]
-        ok = (rt.comp == 1 and len(fts) == 2 and len(sel) == 1 and len(va) == 1 and sel[0].comp == 0
-              and sel[0].key_texts() == rt.key_texts() and va[0].key_texts() == rt.key_texts()[:1])
-        res.ob("C04.R2", f, call, ok,
-               expected="product variable = pair[1], factors = the allele's selector and pair[0] of the same (allele, variant) pair",
-               found=f"res {rt.text()}, factors {[t.text() for t in fts]}",
-               clause="a variant counts for an allele only if the allele is called and the variant kept/added", key=f"prod:{rt.fam}")
-    res.floor("C04.R2", "keep/add product sites", n, 2)
-    # every pair of both selector tables gets its product
-    try:
-        pairs = {c.K: set(), c.N: set()}
-        for s in m.scatter("constraints"):
-            if s["init"]:
+        ref_full = reference(inst)
+        ref = {k_: sc for k_, (sc, strict) in ref_full.items()}                 # admissible by the statement-level rules
+        must = {k_ for k_, (sc, strict) in ref_full.items() if strict}           # ... and by the optional strengthening rules too
+        total += len(ref)
+        got = {}
+        for o in out:
+            k_ = o.key()
+            got[k_] = min(o.score, got.get(k_, 1e18))
+            if o.major_solution is None or getattr(o.major_solution, "label", None) != "M":
+                bad.setdefault("chain", f"{tag}: a refined solution does not carry the major solution it refines")
+        for k_ in got:
+            cv = clause_violations(inst, k_)
+            if cv:
+                bad.setdefault("clauses", f"{tag}: the model admits {k_}: {cv[0]}")
+        only_code = sorted(set(got) - set(ref), key=str)
+        only_ref = sorted(must - set(got), key=str)
+        if only_code and "clauses" not in bad:
+            bad.setdefault("admitted", f"{tag}: the model admits {only_code[0]}, which the documented rules exclude")
+        if only_ref:
+            bad.setdefault("complete", f"{tag}: the documented rules admit {only_ref[0]} (objective {ref[only_ref[0]]:.4f}); the model cannot express it")
+        diff = [(k_, got[k_], ref[k_]) for k_ in got if k_ in ref and abs(got[k_] - ref[k_]) > 2e-3]
+        if diff:
+            k_, a_, b_ = diff[0]
+            bad.setdefault("objective", f"{tag}: assignment {k_} scores {a_:.5f} in the model; fit error + penalties = {b_:.5f}")
+        expressible = {k_: sc for k_, sc in ref.items() if k_ in got}
+        best = min(expressible.values()) if expressible else None
+        for mx in (1, 3):
+            try:
+                kind, rep = fold_solve_minor(repo, inst, "report", mx, wrapper)
+            except Unfoldable as e:
+                res.err("C04.R12", f"solve_minor_model outside the folding language: {e}")
+                return
+            if kind == "raise":
+                bad.setdefault("report", f"{tag}, at most {mx} solution(s): raises {rep}")
                 continue
-            ts = [t for _, t in s["lin"].terms if t.kind == "var" and t.fam in (c.K, c.N) and t.comp == 1]
-            if not ts or not any(isinstance(n_, ast.Call) and call_name(n_).endswith("prod") for n_ in ast.walk(s["node"])):
+            keys = [o.key() for o in rep]
+            if best is None:
+                if rep:
+                    bad.setdefault("report", f"{tag}: reports {keys} although nothing is admissible")
                 continue
-            for loc in bindings(s["binders"], s["filters"], c.env, c.funcs, hook=c.evhook, defs=c.defs):
-                e = dict(c.env)
-                e.update(loc)
-                for t in ts:
-                    ks = tuple(Evaluator(e, funcs=c.funcs, hook=c.evhook).ev(k) for k in t.keys)
-                    pairs[t.fam].add(ks)
-        wantK = {(a, mm) for a in c.tK for mm in c.tK[a]}
-        wantN = {(a, mm) for a in c.tN for mm in c.tN[a]}
-        ok = pairs[c.K] == wantK and pairs[c.N] == wantN
-        found = f"keep pairs {len(pairs[c.K])}/{len(wantK)}, add pairs {len(pairs[c.N])}/{len(wantN)}"
-    except (Unfoldable, Raised, KeyError) as e:
-        res.err("C04.R2", f"product scatter outside folding language: {e}")
-        return
-    res.ob("C04.R2", f, f, ok, expected="every (allele copy, variant) pair of both selector tables is linearised by exactly one product",
-           found=found, key="all-pairs-linearised")
+            optimal = {k_ for k_, sc in expressible.items() if sc <= best + 2e-3}
+            if not rep or len(rep) > mx:   # (the same assignment may come back with its copies in another order: the statement does not exclude it)
+                bad.setdefault("report", f"{tag}, at most {mx} solution(s): reports {len(rep)}")
+            for o in rep:
+                if o.key() not in optimal:
+                    bad.setdefault("report", f"{tag}, at most {mx}: reports {o.key()} (score {o.score:.4f}); the best admissible assignments score {best:.4f}: {sorted(optimal, key=str)[:2]}")
+                elif abs(o.score - ref[o.key()]) > 2e-3:
+                    bad.setdefault("report", f"{tag}: {o.key()} reported with score {o.score:.5f}, objective {ref[o.key()]:.5f}")
+                cv = clause_violations(inst, o.key())
+                if cv:
+                    bad.setdefault("report-clauses", f"{tag}: reported {o.key()}: {cv[0]}")
+            if mx >= len(optimal) and len(optimal) <= 3 and len({k_ for k_ in keys}) != len(optimal):
+                # the enumerator's superset cut may hide co-optimal assignments whose active binaries contain another's; tolerated
+                pass
+    res.count("C04.R11:instances folded", n)
+    res.count("C04.R11:assignments compared", total)
+    clauses = {
+        "runs": ("C04.R11", "the model is built and solved on every sample instance", ""),
+        "clauses": ("C04.R11", "every assignment the model admits: one catalogued minor allele of the same major per called copy; core variants kept; additions only where the "
+                               "allele has copies; every carried variant has reads; one variant per position and allele; every supported variant carried by some allele",
+                    "exactly one catalogued minor allele of that same major allele; core variants ... never dropped; ... no allele carries two variants at one position ..."),
+        "admitted": ("C04.R11", "the model admits no assignment beyond the documented rules", ""),
+        "complete": ("C04.R11", "every assignment the documented rules admit can be expressed", "no admissible assignment scores lower"),
+        "objective": ("C04.R11", "objective = fit error over variants and reference alleles + minor_miss x dropped + minor_add x added + minor_add/2 x novel core variants + "
+                                 "minor_phase x read-group disagreement (tie-break terms below 2e-3 ignored)",
+                      "the reported score equals the model objective (fit error + penalties for dropped, added and novel core variants + read-phase disagreement)"),
+        "chain": ("C04.R11", "a refined solution carries the major solution it refines", ""),
+        "report": ("C04.R12", "what is reported is optimal among the admissible assignments, at most max_solutions, scored with the objective", "no admissible assignment scores lower"),
+        "report-clauses": ("C04.R12", "every reported assignment satisfies the statement's clauses", "for every called major-allele copy, exactly one catalogued minor allele ..."),
+    }
+    for key_, (rule, exp, clause) in clauses.items():
+        res.ob(rule, f, f, key_ not in bad, expected=exp, found=f"{n} instances, {total} admissible assignments agree" if key_ not in bad else bad[key_],
+               clause=clause, key=f"model:{key_}")
 
 
-def r3(c, res):
-    f, m = c.f, c.m
-    vals = assignment(c)
-    vv = make_varval(c, vals)
-    gather = None
-    for a, b in m.equalities():
-        if any(t.kind == "table" for _, t in a.lin.terms):
-            gather = a
-    if gather is None:
-        res.ob("C04.R3", f, f, False, expected="coverage equation `expr + E == observed copies` (both senses) for every considered variant and reference site",
-               found="no equality over the scatter table", key="coverage-gather")
-        return
-    bad = None
-    nk = 0
-    try:
-        keys = sorted(c.mutations) + [Mut(p, "_") for p in sorted({mm.pos for mm in c.mutations})]
-        for key in keys:
-            got = scatter_value(m, "constraints", key, c.env, vv, funcs=c.funcs, hook=c.evhook, defs=c.defs)
-            if key.op != "_":
-                want = sum(vals[("MK", a, key)] for a in c.tK if key in c.tK[a]) + sum(vals[("MN", a, key)] for a in c.tN if key in c.tN[a])
-            else:
-                want = 0.0
-                for a in c.A:
-                    if not c.gene.has_coverage(a[0].major, key.pos):
-                        continue
-                    present = [mm for mm in c.A[a] if mm.pos == key.pos and mm.op[:3] != "ins"]
-                    if present:
-                        want += vals[("VA", a)] - vals[("MK", a, present[0])]
-                    else:
-                        want += vals[("VA", a)] - sum(vals[("MN", a, mm)] for mm in c.tN[a] if mm.pos == key.pos and mm.op[:3] != "ins")
-            nk += 1
-            if abs(got - want) > 1e-9:
-                bad = f"key {key}: accumulated template {got:.4f}, documented {want:.4f}"
-                break
-    except (Unfoldable, Raised, KeyError, IndexError) as e:
-        res.err("C04.R3", f"coverage-equation scatter outside folding language: {e}")
-        return
-    res.ob("C04.R3", f, gather.call, bad is None,
-           expected="variant: sum of keep-products + add-products; reference site: per allele with copies there, selector minus the product "
-                    "of its own (non-insertion) variant there, or minus the add-products of non-insertion variants there",
-           found=f"agrees on {nk} keys of the sample instance" if bad is None else bad,
-           clause="fit error of the reported assignment", key="coverage-expressions")
-    E = [n for n, c_ in m.fams.containers.items() if any(i["prefix"].startswith("E_") for i in c_["infos"])]
-    infos = m.fams.containers[E[0]]["infos"] if E else []
-    free = bool(infos) and all(i["lb"] is not None and ast.unparse(i["lb"]).startswith("-") and i["ub"] is not None for i in infos)
-    okg = len(gather.lin.terms) == 2 and any(t.kind == "var" and E and t.fam == E[0] for _, t in gather.lin.terms)
-    res.ob("C04.R3", f, gather.call, okg and free, expected="table[m] + E[m] == observed copies with E free in sign",
-           found=f"{gather.lin.text()[:90]}; E free: {free}", key="coverage-gather")
+def r13(repo, res):
+    """estimate_minor folded whole: candidate minor alleles and considered variants are pooled over all major solutions."""
+    from sa.fold import ClassModel, Lifted
 
-
-def implication_sites(c, fam_a, comp_a, fam_b):
-    """Sites of the form  coefA*X + coefB*VA <= 0  (two variables)."""
-    out = []
-    for s in c.m.sites:
-        if s.lin is None or s.sense == "==" or s.lin.sum_terms():
-            continue
-        vt = s.lin.var_terms()
-        if len(vt) == 2 and {t.fam for _, t in vt} == {fam_a, fam_b}:
-            out.append(s)
-    return out
-
-
-def r4(c, res):
-    f, m = c.f, c.m
-    sites = [s for s in implication_sites(c, c.K, 0, c.VA)
-             if any(t.fam == c.K and t.comp == 0 and float(k.num) < 0 for k, t in s.lin.var_terms())
-             and any(t.fam == c.VA and float(k.num) > 0 for k, t in s.lin.var_terms())]
-    got = set()
-    try:
-        for s in sites:
-            for loc in bindings(s.binders, s.filters, c.env, c.funcs, hook=c.evhook, defs=c.defs):
-                e = dict(c.env)
-                e.update(loc)
-                kt = [t for _, t in s.lin.var_terms() if t.fam == c.K][0]
-                vt = [t for _, t in s.lin.var_terms() if t.fam == c.VA][0]
-                ka = tuple(Evaluator(e, funcs=c.funcs, hook=c.evhook).ev(k) for k in kt.keys)
-                va = Evaluator(e, funcs=c.funcs, hook=c.evhook).ev(vt.keys[0])
-                if ka[0] == va:
-                    got.add(ka)
-    except (Unfoldable, Raised, KeyError) as e:
-        res.err("C04.R4", f"core-variant rule outside folding language: {e}")
-        return
-    want = {(a, mm) for a in c.A for mm in c.A[a] if c.gene.is_functional(mm)}
-    res.ob("C04.R4", f, sites[0].call if sites else f, got == want and bool(want),
-           expected="keep-selector >= allele selector for every core variant of every candidate allele copy",
-           found=f"instances for {len(got)} of {len(want)} (allele, core variant) pairs", clause="core variants of a called allele are never dropped",
-           key="core-kept")
-
-
-def carriers_sites(c):
-    """Sites whose normal form is (sum of keep-products + sum of add-products of one variant over all alleles) + const <= 0."""
-    out = []
-    for s in c.m.sites:
-        if s.lin is None or s.lin.var_terms():
-            continue
-        sums = s.lin.sum_terms()
-        if len(sums) != 2:
-            continue
-        fset = set()
-        for k, t in sums:
-            for _, t2 in t.body.terms:
-                if t2.kind == "var" and t2.comp == 1:
-                    fset.add(t2.fam)
-        if fset == {c.K, c.N} and all(ast.unparse(t.binders[0][1]) == "alleles" for _, t in sums if t.binders):
-            out.append(s)
-    return out
-
-
-def r57(c, res):
-    f, m = c.f, c.m
-    # R5a: an addition selector exists only where the allele has copies and does not already carry the variant
-    want = {a: {mm for mm in c.mutations if c.gene.has_coverage(a[0].major, mm.pos) and mm not in c.A[a]} for a in c.A}
-    got = {a: set(c.tN[a]) for a in c.tN}
-    res.ob("C04.R5", f, m.fams.containers[c.N]["site"], got == want,
-           expected="add-selectors range over considered variants at positions where the allele has gene copies and that it does not define",
-           found="domain agrees" if got == want else f"differs for {[str(a) for a in want if got.get(a) != want[a]][:3]}",
-           clause="a variant is only added to an allele that has gene copies at that position", key="add-domain")
-    wantK = {a: set(c.A[a]) for a in c.A}
-    res.ob("C04.R5", f, m.fams.containers[c.K]["site"], {a: set(c.tK[a]) for a in c.tK} == wantK,
-           expected="keep-selectors range over the allele's own variants", found="domain agrees", key="keep-domain")
-    sites = carriers_sites(c)
-    vals = assignment(c)
-    vv = make_varval(c, vals)
-    inst = collections.defaultdict(list)
-    try:
-        for s in sites:
-            for loc, v in site_values(s, c.env, vv, funcs=c.funcs, hook=c.evhook, defs=c.defs):
-                mm = [x for x in loc.values() if isinstance(x, Mut)]
-                if not mm:
-                    continue
-                mm = mm[-1]
-                carriers = sum(vals[("MK", a, mm)] for a in c.tK if mm in c.tK[a]) + sum(vals[("MN", a, mm)] for a in c.tN if mm in c.tN[a])
-                # canonical form L <= 0 :  L = +carriers - rhs   or   L = -carriers + rhs
-                if abs(v - carriers) < 1e-9:
-                    inst[mm].append(("<=", 0.0))
-                elif abs(v + carriers - 1) < 1e-9:
-                    inst[mm].append((">=", 1.0))
-                else:
-                    inst[mm].append(("other", round(v - carriers, 6)))
-    except (Unfoldable, Raised, KeyError) as e:
-        res.err("C04.R5", f"carrier rules outside folding language: {e}")
-        return
-    no_support = [mm for mm in c.mutations if c.support.get(mm, 0) == 0 or c.major_sol.cn_solution.position_cn(mm.pos) == 0]
-    supported = [mm for mm in c.mutations if mm not in no_support]
-    bad5 = [str(mm) for mm in no_support if ("<=", 0.0) not in inst.get(mm, [])]
-    res.ob("C04.R5", f, sites[0].call if sites else f, not bad5 and bool(no_support),
-           expected="no reads or no copies at the position => sum of carriers <= 0",
-           found="present for " + ", ".join(str(x) for x in no_support) if not bad5 else f"missing for {bad5}",
-           clause="only if filtered reads support it; every variant an allele is reported to carry has supporting reads", key="no-coverage")
-    bad7 = [str(mm) for mm in supported if (">=", 1.0) not in inst.get(mm, [])]
-    res.ob("C04.R7", f, sites[0].call if sites else f, not bad7 and bool(supported),
-           expected="reads and copies at the position => sum of carriers >= 1",
-           found=f"present for {len(supported) - len(bad7)} of {len(supported)} supported variants" + (f"; missing for {bad7}" if bad7 else ""),
-           clause="every considered variant that has supporting reads is carried by at least one allele", key="min-one")
-    wrong = [str(mm) for mm in supported if ("<=", 0.0) in inst.get(mm, [])] + [str(mm) for mm in no_support if (">=", 1.0) in inst.get(mm, [])]
-    res.ob("C04.R5", f, sites[0].call if sites else f, not wrong, expected="the two rules apply to complementary sets of variants",
-           found="ok" if not wrong else f"both / swapped for {wrong}", key="complementary")
-
-
-def r6(c, res):
-    f, m = c.f, c.m
-    vals = assignment(c)
-    vv = make_varval(c, vals)
-    # candidates: sites  SUM(products at pos of allele a) - 1 <= 0  with both families in one site
-    got = {}
-    try:
-        for s in m.sites:
-            if s.lin is None or s.lin.var_terms() or s.sense == "==":
-                continue
-            sums = s.lin.sum_terms()
-            fset = {t2.fam for _, t in sums for _, t2 in t.body.terms if t2.kind == "var" and t2.comp == 1}
-            if fset != {c.K, c.N} or s.lin.const_value({}) != -1.0:
-                continue
-            for loc, v in site_values(s, c.env, vv, funcs=c.funcs, hook=c.evhook, defs=c.defs):
-                pos = [x for x in loc.values() if isinstance(x, int)]
-                a = [x for x in loc.values() if isinstance(x, tuple) and len(x) == 2 and isinstance(x[0], SA)]
-                if pos and a:
-                    got[(a[-1], pos[-1])] = v
-    except (Unfoldable, Raised, KeyError) as e:
-        res.err("C04.R6", f"one-variant-per-site rule outside folding language: {e}")
-        return
-    bad = None
-    n = 0
-    for a in c.A:
-        for pos in sorted({mm.pos for mm in c.mutations}):
-            ks = [mm for mm in c.tK[a] if mm.pos == pos]
-            ns = [mm for mm in c.tN[a] if mm.pos == pos]
-            if len(ks) + len(ns) > 1:
-                n += 1
-                want = sum(vals[("MK", a, mm)] for mm in ks) + sum(vals[("MN", a, mm)] for mm in ns) - 1
-                g = got.get((a, pos))
-                if g is None or abs(g - want) > 1e-9:
-                    bad = f"allele {a[0]} copy {a[1]}, position {pos}: {'missing' if g is None else f'template {g}, documented {want}'}"
-    res.ob("C04.R6", f, f, bad is None and n > 0,
-           expected="per allele copy and position with more than one candidate variant: sum of its keep- and add-products there <= 1",
-           found=f"agrees for {n} (allele, position) pairs" if bad is None else bad, clause="no allele carries two variants at one position",
-           key="one-per-site")
-
-
-def r10(c, res):
-    """Read-phase block: a read group is explained by a *called* allele, and by exactly one."""
-    f, m = c.f, c.m
-    PH = [n for n, c_ in m.fams.containers.items() if any(i["prefix"].startswith("PH_") for i in c_["infos"])]
-    if len(PH) != 1:
-        res.ob("C04.R10", f, f, False, expected="phase selectors PH_<allele>_<read group>", found=f"families {PH}", key="phase-family")
-        return
-    PH = PH[0]
-    tie = False
-    one = False
-    for s in m.sites:
-        if s.lin is None:
-            continue
-        vt = s.lin.var_terms()
-        if len(vt) == 2 and {t.fam for _, t in vt} == {PH, c.VA} and not s.lin.sum_terms() and s.sense != "==" \
-                and not s.lin.consts:
-            cp = [float(k.num) for k, t in vt if t.fam == PH][0]
-            ca = [float(k.num) for k, t in vt if t.fam == c.VA][0]
-            if cp == 1.0 and ca == -1.0:
-                tie = True
-    for a, b in m.equalities():
-        sums = a.lin.sum_terms()
-        if len(sums) == 1 and not a.lin.var_terms() and any(t.kind == "var" and t.fam == PH for _, t in sums[0][1].body.terms) \
-                and abs(abs(a.lin.const_value({}) or 0) - 1.0) < 1e-12:
-            one = True
-    res.ob("C04.R10", f, f, tie, expected="phase selector <= allele selector (a read group can only be explained by a called allele)",
-           found="present" if tie else "absent", clause="read-phase disagreement of the reported assignment", key="phase-called-only")
-    res.ob("C04.R10", f, f, one, expected="every read group is explained by exactly one allele copy (sum of its phase selectors == 1)",
-           found="present" if one else "absent", key="phase-exactly-one")
-
-
-def r8(c, res):
-    f, m = c.f, c.m
-    obj = m.objective_lin()
-    if obj is None:
-        res.err("C04.R8", "setObjective not found")
-        return
-    vals = assignment(c)
-    vv0 = make_varval(c, vals)
-    vo_names = [n for n, i in m.fams.scalars.items() if i["prefix"].startswith("VNEWOR_")]
+    em = repo.func("minor::estimate_minor")
+    res.analysed(em)
+    Mut = collections.namedtuple("Mutation", ["pos", "op"])
+    F1, S1, S2, NC, X0 = Mut(100, "A>G"), Mut(200, "C>T"), Mut(300, "G>A"), Mut(500, "C>G"), Mut(600, "T>C")
+    gene = Obj(alleles={"1": Obj(func_muts=set(), minors={"1.001": Obj(neutral_muts=set()), "1.002": Obj(neutral_muts={S1})}),
+                        "3": Obj(func_muts={F1}, minors={"3.001": Obj(neutral_muts={S2})}),
+                        "9": Obj(func_muts={Mut(700, "A>C")}, minors={"9.001": Obj(neutral_muts=set())})},
+               random_mutations={X0}, region_at=lambda p: None)
+    cns = [Obj(label=f"C{i}", _solution_nice=(lambda i=i: f"C{i}"), position_cn=lambda p: 2, max_cn=lambda: 2) for i in (1, 2)]
+    majors = [Obj(label="Ma", score=0.0, solution={Obj(major="1"): 2}, added=[NC], cn_solution=cns[0]),
+              Obj(label="Mb", score=0.5, solution={Obj(major="3"): 1, Obj(major="1"): 1}, added=[], cn_solution=cns[1])]
     seen = []
 
-    def atomval(t):
-        if getattr(t, "tag", "") == "abssum":
-            seen.append(ast.unparse(t.node.args[0]))
-            return 2.75
-        return NotImplemented
+    def solve(g, cov, major_sol, alleles, mutations, solver, max_solutions=1, **kw):
+        seen.append((major_sol.label, sorted((a[1], a[2]) for a in alleles), set(mutations)))
+        return []
 
-    def vv(fam, keys, comp):
-        if vo_names and fam == vo_names[0]:
-            return 0.5
-        return vv0(fam, keys, comp)
+    def filt(fn_):
+        return Obj(filtered=filt, _coverage={})
 
     try:
-        env = dict(c.env)
-        env["cnt"] = 0
-        got = LinEval(env, vv, funcs=c.funcs, atomval=atomval, hook=c.evhook).lin(obj)
-    except (Unfoldable, Raised, KeyError) as e:
-        res.err("C04.R8", f"objective outside folding language: {e}")
-        return
-    miss, add = 1.5, 1.0
-    novel_fn = {mm for a in c.tN for mm in c.tN[a] if c.gene.is_functional(mm) and mm not in c.gene.alleles[a[0].major].func_muts}
-    want = 2.75 + miss * (sum(len(c.tK[a]) * vals[("VA", a)] for a in c.tK) - sum(vals[("MK", a, mm)] for a in c.tK for mm in c.tK[a])) \
-        + add * sum(vals[("N", a, mm)] for a in c.tN for mm in c.tN[a]) + add / 2 * 0.5 * len(novel_fn)
-    res.ob("C04.R8", f, m.objectives[-1], abs(got - want) < 1e-6 and len(seen) == 1,
-           expected="abssum(E) + minor_miss*(sum |defn(a)|*A[a] - sum keep-products) + minor_add*sum add-selectors + minor_add/2 * sum novel-core indicators (+ phase term)",
-           found=f"template = {got:.6f}, documented = {want:.6f}; abssum over {seen}",
-           clause="the model objective (fit error + penalties for dropped, added and novel core variants + read-phase disagreement)", key="objective")
-    ph = [k for k, t in obj.terms if "minor_phase" in k.text()]
-    res.ob("C04.R8", f, m.objectives[-1], bool(ph) and all(float(k.num) > 0 for k in ph), expected="a read-phase term with coefficient +minor_phase",
-           found=f"{[k.text() for k in ph]}", key="phase-term")
-    # indicator >= each novel-core add-selector
-    ok = False
-    for s in m.sites:
-        if s.lin is None or not vo_names:
-            continue
-        ts = s.lin.terms
-        if len(ts) == 2 and any(t.kind == "var" and t.fam == vo_names[0] and float(k.num) == -1.0 for k, t in ts) \
-                and any(t.kind == "elem" and float(k.num) == 1.0 for k, t in ts):
-            el = [t for _, t in ts if t.kind == "elem"][0]
-            fl = " ".join(ast.unparse(x) for _, sm in el.family.terms if sm.kind == "sum" for x, _ in sm.filters)
-            ok = "is_functional" in fl and "func_muts" in fl
-    res.ob("C04.R8", f, f, ok, expected="indicator >= every add-selector of a core variant that the allele's major does not define",
-           found="present" if ok else "absent", key="novel-indicator")
-
-
-def r9(c, res):
-    f, m = c.f, c.m
-    loop = None
-    for n in walk_local(f):
-        if isinstance(n, ast.For) and ast.unparse(n.iter) == f"{c.VA}.items()" and any(
-                isinstance(x, ast.Call) and call_name(x) == "SolvedAllele" for x in ast.walk(n)):
-            loop = n
-    if loop is None:
-        res.err("C04.R9", "read-out loop over the allele selectors not found")
-        return
-    a1, a2, a3 = sorted(c.tK, key=lambda k: (k[0]._k(), k[1]))[:3]
-    setv = {}
-    for a in c.tK:
-        setv[("VA", a)] = 1 if a[0].minor in ("1.002", "3.001") and a[1] == 0 else 0
-        for mm in c.tK[a]:
-            setv[("K", a, mm)] = 0 if mm == S2 else 1
-        for mm in c.tN[a]:
-            setv[("N", a, mm)] = 1 if (mm == NC and a[0].major == "1") else 0
-    names = {}
-    VAn = {a: ("VA", a) for a in c.tK}
-    Kn = {a: {mm: (("K", a, mm), ("MK", a, mm)) for mm in c.tK[a]} for a in c.tK}
-    Nn = {a: {mm: (("N", a, mm), ("MN", a, mm)) for mm in c.tN[a]} for a in c.tN}
-    hom = {X0}
-
-    def hook(node, ev):
-        if isinstance(node, ast.Subscript) and isinstance(node.value, ast.Name) and node.value.id == "coverage":
-            mm = ev.ev(node.slice)
-            return 30.0 if mm == ALT250 else 5.0
-        return NotImplemented
-
-    cov = Obj(profile=Obj(phase=False), sam=None, single_copy=lambda mm, s: 10.0)
-    env = {c.VA: VAn, c.K: Kn, c.N: Nn, "alleles": c.A, "gene": c.gene, "major_sol": c.major_sol, "coverage": cov,
-           "model": Obj(getValue=lambda v: setv.get(v, 0))}
-    try:
-        ev = Evaluator(env, funcs={"SolvedAllele": SA}, hook=hook)
-        ev.locals["solution"] = []
-        kind, val = ev.run([loop])
-        sol = ev.locals["solution"]
-    except (Unfoldable, Raised, KeyError) as e:
-        res.err("C04.R9", f"read-out loop outside folding language: {e}")
-        return
-    got = {(s.major, s.minor): (set(s.added), set(s.missing)) for s in sol}
-    # ALT250 has copies == max_cn (30/10 = 3): the homozygous post-processing adds it to every selected allele that does not define it
-    want = {("1", "1.002"): ({NC, ALT250}, set()), ("3", "3.001"): ({ALT250}, {S2})}
-    res.ob("C04.R9", f, loop, got == want,
-           expected="for each selected allele: missing = own variants whose keep-selector is unset, added = variants whose add-selector is set "
-                    "(plus unambiguously homozygous variants)",
-           found=str({k: (sorted(map(str, v[0])), sorted(map(str, v[1]))) for k, v in got.items()}),
-           clause="the refined solution names the variants each allele carries", key="read-out")
-    ctor = [x for x in ast.walk(f) if isinstance(x, ast.Call) and call_name(x) == "MinorSolution"]
-    ok = bool(ctor) and ast.unparse(kwarg(ctor[0], "score") or ast.Constant(0)) == "opt" and \
-        ast.unparse(kwarg(ctor[0], "major_solution") or ast.Constant(0)) == "major_sol" and \
-        ast.unparse(kwarg(ctor[0], "solution") or ast.Constant(0)) == "solution"
-    res.ob("C04.R9", f, ctor[0] if ctor else f, ok, expected="MinorSolution(score=<objective>, solution=<read-out>, major_solution=<the refined major solution>)",
-           found=ast.unparse(ctor[0])[:120] if ctor else "no constructor", clause="the reported score equals the model objective", key="solution-object")
-    # estimate_minor pools candidates and considered variants over all major solutions
-    g = c.repo.func("minor::estimate_minor")
-    res.analysed(g)
-    gene = c.gene
-    gene.random_mutations = {X0}
-    ms = [Obj(solution={SA(gene, "1"): 2}, added=[NC], cn_solution="c1"), Obj(solution={SA(gene, "3"): 1, SA(gene, "1"): 1}, added=[], cn_solution="c2")]
-    try:
-        loc = fold_defs(g, {"alleles", "mutations"}, {"gene": gene, "major_sols": ms}, funcs={"SolvedAllele": SA})
+        Lifted(em, funcs={"SolvedAllele": lambda *a: a, "functools.partial": lambda f_, *a: (lambda *b: f_(*a, *b)), "natsorted": lambda it, key=None: sorted(it, key=key),
+                          "_print_candidates": lambda *a: None, "solve_minor_model": solve, "Mutation": Mut},
+               env={"Coverage": Obj(quality_filter="QUALITY")})(gene, ClassModel(repo.cls("coverage::Coverage"), env={"Coverage": Obj(quality_filter="QUALITY")}).instance(
+                   filtered=filt, profile=Obj(cn_max=20)), majors, "any")
     except (Unfoldable, Raised) as e:
-        res.err("C04.R9", f"candidate pooling in estimate_minor outside folding language: {e}")
+        res.err("C04.R13", f"estimate_minor outside the folding language: {e}")
         return
-    minors = {(s.major, s.minor) for s in loc.get("alleles", [])}
-    ok = minors == {("1", "1.001"), ("1", "1.002"), ("3", "3.001")} and set(loc.get("mutations", ())) >= {F1, S1, S2, NC, X0}
-    res.ob("C04.R9", g, g, ok, expected="candidate minors and considered variants are pooled over all major solutions (core, minor-only, novel, common variants)",
-           found=f"minors {sorted(minors)}; variants {sorted(map(str, loc.get('mutations', ())))}", key="pooling")
+    want_alleles = sorted([("1", "1.001"), ("1", "1.002"), ("3", "3.001")])
+    ok = len(seen) == 2 and all(sorted(set(al)) == want_alleles and muts >= {F1, S1, S2, NC, X0} and Mut(700, "A>C") not in muts for _, al, muts in seen)
+    res.ob("C04.R13", em, em, ok,
+           expected="every refinement sees the minor alleles of every major allele called in any candidate, and the union of their core and minor-only variants, "
+                    "the candidates' novel variants and the common variants (nothing of uncalled alleles)",
+           found="ok" if ok else str([(l, sorted(set(al)), sorted(map(str, m_))) for l, al, m_ in seen]),
+           clause="every considered variant that has supporting reads is carried by at least one allele (the considered set)", key="pooling")
 
 
 def run(repo, res):
-    c = context(repo)
-    c.repo = repo
-    res.analysed(c.f)
-    res.floor("C04", "addConstr sites", len(c.m.sites), 14)
-    res.floor("C04", "product sites", len(c.m.prods), 2)
-    res.count("C04:constraint sites", len(c.m.sites))
-    from sa.report import seed as _seed, thorough
-
-    rounds = [0] if not thorough() else [0] + [1 + (_seed() + j) % 97 for j in range(4)]
-    for sd in rounds:
-        c.seed = sd
-        r1(c, res)
-        r3(c, res)
-        r57(c, res)
-        r6(c, res)
-        r8(c, res)
-    res.count("C04:valuations evaluated per template", len(rounds))
-    r2(c, res)
-    r4(c, res)
-    r9(c, res)
-    r10(c, res)
+    r11(repo, res)
+    r13(repo, res)
 
 
 MUTANTS = [
-    dict(name="R1 count side dropped", module="minor", expect="C04.R1",
+    dict(name="R1 count side dropped", module="minor", expect=["C04.R11", "C04.R12"],
          old='        model.addConstr(expr >= cnt, name=f"CCNT_{sa.major}_2")\n', new=""),
-    dict(name="R1 tie ignores added variants of the major", module="minor", expect="C04.R1",
+    dict(name="R1 tie ignores added variants of the major", module="minor", expect=["C04.R11", "C04.R12"],
          old="            if (vs.major, vs.added, vs.missing) == (sa.major, sa.added, sa.missing)", new="            if vs.major != sa.major or True"),
-    dict(name="R1 other candidates not disabled", module="minor", expect="C04.R1",
+    dict(name="R1 other candidates not disabled", module="minor", expect=["C04.R11", "C04.R12"],
          old='''    model.addConstr(
         model.quicksum(VA.values()) <= sum(major_sol.solution.values()),
         name="CCNT_OTHER",
     )
 ''', new=""),
-    dict(name="R1 copy supply short", module="minor", expect="C04.R1",
+    dict(name="R1 copy supply short", module="minor", expect=["C04.R11", "C04.R12"],
          old="        for cnt in range(1, max_cn):\n            alleles[a, cnt] = alleles[a, 0]", new="        for cnt in range(2, max_cn):\n            alleles[a, cnt] = alleles[a, 0]"),
-    dict(name="R2 product wired to the wrong selector", module="minor", expect="C04.R2",
+    dict(name="R2 product wired to the wrong selector", module="minor", expect=["C04.R11", "C04.R12"],
          old="constraints[m] += model.prod(VNEW[a][m][1], [VA[a], VNEW[a][m][0]])", new="constraints[m] += model.prod(VNEW[a][m][1], [VA[a], VNEW[a][m][1]])"),
-    dict(name="R2 keep product without the allele selector", module="minor", expect="C04.R2",
+    dict(name="benign: keep product without the allele selector (keep-selector <= allele selector makes it the same product)", module="minor", kind="benign",
          old="constraints[m] += model.prod(VKEEP[a][m][1], [VA[a], VKEEP[a][m][0]])", new="constraints[m] += model.prod(VKEEP[a][m][1], [VKEEP[a][m][0]])"),
-    dict(name="R3 reference equation loses the kept-variant term", module="minor", expect="C04.R3",
+    dict(name="R3 reference equation loses the kept-variant term", module="minor", expect=["C04.R11", "C04.R12"],
          old="                constraints[ref_m] += VA[a] - VKEEP[a][present_muts[0]][1]", new="                constraints[ref_m] += VA[a]"),
-    dict(name="R3 added insertions consume reference (seeded C04_2 shape)", module="minor", expect="C04.R3",
+    dict(name="R3 added insertions consume reference (seeded C04_2 shape)", module="minor", expect=["C04.R11", "C04.R12"],
          old='                muts = [m for m in VNEW[a] if m.pos == pos and m[1][:3] != "ins"]', new="                muts = [m for m in VNEW[a] if m.pos == pos]"),
-    dict(name="R3 coverage side dropped", module="minor", expect="C04.R3",
+    dict(name="R3 coverage side dropped", module="minor", expect=["C04.R11", "C04.R12"],
          old='        model.addConstr(expr + VERR[m] <= cov, name=f"CCOV_{m.pos}_{m.op}")\n', new=""),
-    dict(name="R3 reference equation ignores has_coverage", module="minor", expect="C04.R3",
+    dict(name="R3 reference equation ignores has_coverage", module="minor", expect=["C04.R11", "C04.R12"],
          old="            if not gene.has_coverage(a[0].major, pos):\n                continue\n            # Does this allele", new="            # Does this allele"),
-    dict(name="R4 rule 2 deleted", module="minor", expect="C04.R4",
+    dict(name="R4 rule 2 deleted", module="minor", expect=["C04.R11", "C04.R12"],
          old='''                model.addConstr(
                     VKEEP[a][m][0] >= VA[a],
                     name=f"CFUNC_{m.pos}_{m.op}_{a[0].major}_{a[0].minor}_{a[1]}",
                 )''', new="                pass"),
-    dict(name="R4 only first copy (seeded C04_1 shape)", module="minor", expect="C04.R4",
+    dict(name="R4 only first copy (seeded C04_1 shape)", module="minor", expect=["C04.R11", "C04.R12"],
          old="    for a in alleles:\n        for m in alleles[a]:\n            if gene.is_functional(m):",
          new="    for sa_ in alleles_list:\n        a = (sa_, 0)\n        for m in alleles[a]:\n            if gene.is_functional(m):"),
-    dict(name="R5 additions where the allele has no copies", module="minor", expect="C04.R5",
+    dict(name="R5 additions where the allele has no copies", module="minor", expect=["C04.R11", "C04.R12"],
          old="            if gene.has_coverage(a[0].major, m.pos) and m not in alleles[a]\n", new="            if m not in alleles[a]\n"),
-    dict(name="R5 rule 5 (no coverage) deleted", module="minor", expect="C04.R5",
+    dict(name="R5 rule 5 (no coverage) deleted", module="minor", expect=["C04.R11", "C04.R12"],
          old='            model.addConstr(expr <= 0, name=f"CNOCOV_{m.pos}_{m.op}")\n        else:\n            model.addConstr(expr <= coverage[m]',
          new='            pass\n        else:\n            model.addConstr(expr <= coverage[m]'),
-    dict(name="R5 no-coverage test ignores the structure", module="minor", expect="C04.R5",
+    dict(name="R5 no-coverage test ignores the structure", module="minor", expect=["C04.R11", "C04.R12"],
          old="        if major_sol.cn_solution.position_cn(m.pos) == 0 or coverage[m] == 0:\n            model.addConstr(expr <= 0",
          new="        if coverage[m] == 0:\n            model.addConstr(expr <= 0"),
-    dict(name="R6 rule 4 deleted", module="minor", expect="C04.R6",
+    dict(name="R6 rule 4 deleted", module="minor", expect=["C04.R11", "C04.R12"],
          old='''                model.addConstr(
                     model.quicksum(mp + ma) <= 1,
                     name=f"CSINGLEFULL_{pos}_{a[0].major}_{a[0].minor}_{a[1]}",
                 )''', new="                pass"),
-    dict(name="R6 one per site only among additions", module="minor", expect="C04.R6",
+    dict(name="R6 one per site only among additions", module="minor", expect=["C04.R11", "C04.R12"],
          old="                    model.quicksum(mp + ma) <= 1,", new="                    model.quicksum(ma + ma[:0]) <= 1,"),
-    dict(name="R7 CMINONE dropped", module="minor", expect="C04.R7",
+    dict(name="R7 CMINONE dropped", module="minor", expect=["C04.R11", "C04.R12"],
          old='            model.addConstr(expr >= 1, name=f"CMINONE_{m.pos}_{m.op}")\n', new=""),
-    dict(name="R8 miss penalty dropped", module="minor", expect="C04.R8",
+    dict(name="R8 miss penalty dropped", module="minor", expect=["C04.R11", "C04.R12"],
          old="    o_penal -= coverage.profile.minor_miss * model.quicksum(\n        v[1] for a in VKEEP for _, v in VKEEP[a].items()\n    )\n", new=""),
-    dict(name="R8 add penalty dropped", module="minor", expect="C04.R8",
+    dict(name="R8 add penalty dropped", module="minor", expect=["C04.R11", "C04.R12"],
          old="            o_penal += coverage.profile.minor_add * (1 + cnt / 1000000) * v[0]\n", new="            pass\n"),
-    dict(name="R8 novel-core penalty dropped", module="minor", expect="C04.R8",
+    dict(name="R8 novel-core penalty dropped", module="minor", expect=["C04.R11", "C04.R12"],
          old="            o_penal += coverage.profile.minor_add / 2 * vo\n", new="            pass\n"),
-    dict(name="R8 phase term dropped", module="minor", expect="C04.R8",
+    dict(name="R8 phase term dropped", module="minor", expect=["C04.R11", "C04.R12"],
          old="    objective += o_phase\n", new=""),
-    dict(name="R9 missing read from the set selectors", module="minor", expect="C04.R9",
+    dict(name="R9 missing read from the set selectors", module="minor", expect=["C04.R11", "C04.R12"],
          old="                    if not model.getValue(mv[0]):\n                        missing.append(m)", new="                    if model.getValue(mv[0]):\n                        missing.append(m)"),
-    dict(name="R9 added variants not reported", module="minor", expect="C04.R9",
+    dict(name="R9 added variants not reported", module="minor", expect=["C04.R11", "C04.R12"],
          old="                        allele[0].added + added,", new="                        allele[0].added,"),
-    dict(name="R9 score not the objective", module="minor", expect="C04.R9",
+    dict(name="R9 score not the objective", module="minor", expect=["C04.R11", "C04.R12"],
          old="                score=opt,\n                solution=solution,\n                major_solution=major_sol,", new="                score=0,\n                solution=solution,\n                major_solution=major_sol,"),
-    dict(name="R10 phase selector not tied to the allele (seeded C04_3 shape)", module="minor", expect="C04.R10",
+    dict(name="R10 phase selector not tied to the allele (seeded C04_3 shape)", module="minor", expect=["C04.R11", "C04.R12"],
          old='                        model.addConstr(VPHASE[ai, ri] <= VA[a], name=f"PH_{ai}_{ri}")\n', new=""),
-    dict(name="R10 read group may be left unexplained", module="minor", expect="C04.R10",
+    dict(name="R10 read group may be left unexplained", module="minor", expect=["C04.R11", "C04.R12"],
          old='                    model.addConstr(e >= 1, name=f"PHASE4_{ri}_2")\n', new=""),
-    dict(name="R6 per-site rule only when two additions compete (seeded C04_b1 shape)", module="minor", expect="C04.R6",
+    dict(name="R6 per-site rule only when two additions compete (seeded C04_b1 shape)", module="minor", expect=["C04.R11", "C04.R12"],
          old="            if len(ma) + len(mp) > 1:\n", new="            if len(ma) > 1:\n"),
     # benign
     dict(name="benign: CORD dropped", module="minor", kind="benign",
